@@ -91,4 +91,103 @@ def view_SplitMergeInfo (v : Val) : Val :=
 
 def view_SigPubKey (v : Val) : Val := Rd.obj "SigPubKey" [("pubkey", v.get "pubkey")]
 
+def view_AccStatusChange : Val → Val
+  | .con "acst_unchanged" _ => Rd.obj "AccStatusChange" [("type_", Rd.str "unchanged")]
+  | .con "acst_frozen" _ => Rd.obj "AccStatusChange" [("type_", Rd.str "frozen")]
+  | .con "acst_deleted" _ => Rd.obj "AccStatusChange" [("type_", Rd.str "deleted")]
+  | _ => .unit
+
+def view_ComputeSkipReason : Val → Val
+  | .con "cskip_no_state" _ => Rd.obj "ComputeSkipReason" [("type_", Rd.str "no_state")]
+  | .con "cskip_bad_state" _ => Rd.obj "ComputeSkipReason" [("type_", Rd.str "bad_state")]
+  | .con "cskip_no_gas" _ => Rd.obj "ComputeSkipReason" [("type_", Rd.str "no_gas")]
+  | .con "cskip_suspended" _ => Rd.obj "ComputeSkipReason" [("type_", Rd.str "suspended")]
+  | _ => .unit
+
+def view_TrStoragePhase (v : Val) : Val :=
+  Rd.obj "TrStoragePhase" [("storage_fees_collected", v.get "storage_fees_collected"),
+    ("storage_fees_due", v.get "storage_fees_due"), ("status_change", view_AccStatusChange (v.get "status_change"))]
+
+/-- `tr_phase_compute_vm`: the fields of the `^[ … ]` group arrive flattened; `reason` is `None` -/
+def view_TrComputePhase : Val → Val
+  | .con "tr_phase_compute_skipped" x =>
+    Rd.obj "TrComputePhase" [("type_", Rd.str "skipped"), ("reason", view_ComputeSkipReason (x.get "reason"))]
+  | .con "tr_phase_compute_vm" x =>
+    let r := x.get "_ref1"
+    Rd.obj "TrComputePhase" [("type_", Rd.str "vm"), ("reason", .unit), ("success", x.get "success"),
+      ("msg_state_used", x.get "msg_state_used"), ("account_activated", x.get "account_activated"),
+      ("gas_fees", x.get "gas_fees"), ("gas_used", r.get "gas_used"), ("gas_limit", r.get "gas_limit"),
+      ("gas_credit", r.get "gas_credit"), ("mode", r.get "mode"), ("exit_code", r.get "exit_code"),
+      ("exit_arg", r.get "exit_arg"), ("vm_steps", r.get "vm_steps"),
+      ("vm_init_state_hash", r.get "vm_init_state_hash"), ("vm_final_state_hash", r.get "vm_final_state_hash")]
+  | _ => .unit
+
+def view_TrActionPhase (v : Val) : Val :=
+  Rd.obj "TrActionPhase" [("success", v.get "success"), ("valid", v.get "valid"), ("no_funds", v.get "no_funds"),
+    ("status_change", view_AccStatusChange (v.get "status_change")), ("total_fwd_fees", v.get "total_fwd_fees"),
+    ("total_action_fees", v.get "total_action_fees"), ("result_code", v.get "result_code"),
+    ("result_arg", v.get "result_arg"), ("tot_actions", v.get "tot_actions"), ("spec_actions", v.get "spec_actions"),
+    ("skipped_actions", v.get "skipped_actions"), ("msgs_created", v.get "msgs_created"),
+    ("action_list_hash", v.get "action_list_hash"), ("tot_msg_size", view_StorageUsedShort (v.get "tot_msg_size"))]
+
+def view_TrBouncePhase : Val → Val
+  | .con "tr_phase_bounce_negfunds" _ => Rd.obj "TrBouncePhase" [("type_", Rd.str "negfunds")]
+  | .con "tr_phase_bounce_nofunds" x =>
+    Rd.obj "TrBouncePhase" [("type_", Rd.str "nofunds"), ("msg_size", view_StorageUsedShort (x.get "msg_size")),
+      ("req_fwd_fees", x.get "req_fwd_fees")]
+  | .con "tr_phase_bounce_ok" x =>
+    Rd.obj "TrBouncePhase" [("type_", Rd.str "ok"), ("msg_size", view_StorageUsedShort (x.get "msg_size")),
+      ("msg_fees", x.get "msg_fees"), ("fwd_fees", x.get "fwd_fees")]
+  | _ => .unit
+
+/-- `fsm_none` is reported as `None` -/
+def view_FutureSplitMerge : Val → Val
+  | .con "fsm_none" _ => .unit
+  | .con "fsm_split" x =>
+    Rd.obj "FutureSplitMerge" [("type_", Rd.str "fsm_split"), ("split_utime", x.get "split_utime"), ("interval", x.get "interval")]
+  | .con "fsm_merge" x =>
+    Rd.obj "FutureSplitMerge" [("type_", Rd.str "fsm_merge"), ("merge_utime", x.get "merge_utime"), ("interval", x.get "interval")]
+  | _ => .unit
+
+def view_IntermediateAddress : Val → Val
+  | .con "interm_addr_regular" x =>
+    Rd.obj "IntermediateAddress" [("type_", Rd.str "interm_addr_regular"), ("use_dest_bits", x.get "use_dest_bits")]
+  | .con "interm_addr_simple" x =>
+    Rd.obj "IntermediateAddress" [("type_", Rd.str "interm_addr_simple"), ("workchain_id", x.get "workchain_id"),
+      ("addr_pfx", x.get "addr_pfx")]
+  | .con "interm_addr_ext" x =>
+    Rd.obj "IntermediateAddress" [("type_", Rd.str "interm_addr_ext"), ("workchain_id", x.get "workchain_id"),
+      ("addr_pfx", x.get "addr_pfx")]
+  | _ => .unit
+
+/-- `validator#53` has no `adnl_addr`: `None` -/
+def view_ValidatorDescr : Val → Val
+  | .con "validator" x =>
+    Rd.obj "ValidatorDescr" [("type_", Rd.str "validator"), ("public_key", view_SigPubKey (x.get "public_key")),
+      ("weight", x.get "weight"), ("adnl_addr", .unit)]
+  | .con "validator_addr" x =>
+    Rd.obj "ValidatorDescr" [("type_", Rd.str "validator_addr"), ("public_key", view_SigPubKey (x.get "public_key")),
+      ("weight", x.get "weight"), ("adnl_addr", x.get "adnl_addr")]
+  | _ => .unit
+
+/-- `catchain_config_new#c2`: the (zero) `flags` are read and checked but not passed on -/
+def view_CatchainConfig : Val → Val
+  | .con "catchain_config" x =>
+    Rd.obj "CatchainConfig" [("type_", Rd.str "catchain_config"), ("mc_catchain_lifetime", x.get "mc_catchain_lifetime"),
+      ("shard_catchain_lifetime", x.get "shard_catchain_lifetime"),
+      ("shard_validators_lifetime", x.get "shard_validators_lifetime"), ("shard_validators_num", x.get "shard_validators_num")]
+  | .con "catchain_config_new" x =>
+    Rd.obj "CatchainConfig" [("type_", Rd.str "catchain_config_new"), ("shuffle_mc_validators", x.get "shuffle_mc_validators"),
+      ("mc_catchain_lifetime", x.get "mc_catchain_lifetime"), ("shard_catchain_lifetime", x.get "shard_catchain_lifetime"),
+      ("shard_validators_lifetime", x.get "shard_validators_lifetime"), ("shard_validators_num", x.get "shard_validators_num")]
+  | _ => .unit
+
+/-- `BlkPrevInfo m` -/
+def view_BlkPrevInfo : Val → Val
+  | .con "prev_blk_info" x => Rd.obj "BlkPrevInfo" [("type_", Rd.str "prev_blk_info"), ("prev", view_ExtBlkRef (x.get "prev"))]
+  | .con "prev_blks_info" x =>
+    Rd.obj "BlkPrevInfo" [("type_", Rd.str "prev_blks_info"), ("prev1", view_ExtBlkRef (x.get "prev1")),
+      ("prev2", view_ExtBlkRef (x.get "prev2"))]
+  | _ => .unit
+
 end TonVerif.Tlb
